@@ -23,6 +23,9 @@ func genC15(r *rand.Rand, tier string) *Case {
 	m := Model{}
 	setup := setupTxn(r, c, m, keyspace, keyspace)
 	c.Phases = append(c.Phases, Phase{Kind: "group", Txns: []Txn{setup}})
+	if r.IntN(4) == 0 {
+		return genC15GiveUpAfterRetry(r, c, m, keyspace)
+	}
 	nw := 2 + r.IntN(3)
 	var txs []Txn
 	keys := r.Perm(keyspace)
@@ -55,6 +58,29 @@ func genC15(r *rand.Rand, tier string) *Case {
 	for i := 0; i < 2+r.IntN(3); i++ {
 		follow.Ops = append(follow.Ops, Op{K: pick(r, "update", "upsert"), S: 0, Key: 1 + keys[i%len(keys)], Val: fmt.Sprintf("follow.%d", i)})
 	}
+	c.Phases = append(c.Phases, Phase{Kind: "group", Txns: []Txn{follow}})
+	c.Phases = append(c.Phases, Phase{Kind: "observe", Label: "final"})
+	return c
+}
+
+// genC15GiveUpAfterRetry: a writer whose first attempt fails softly (another writer committed the
+// node meanwhile), who then finds the node lock taken by a holder that stalls, and who gives up at
+// a caller deadline much shorter than its maxTime (the TTL of whatever it leaves behind).
+func genC15GiveUpAfterRetry(r *rand.Rand, c *Case, m Model, keyspace int) *Case {
+	ks := r.Perm(keyspace)
+	k := func(i int) int { return 1 + ks[i%len(ks)] }
+	x := Txn{Name: "w0", Mode: "w", End: "commit", MaxTime: 20, Ops: []Op{{K: "update", S: 0, Key: k(0), Val: "w0.0"}}}
+	a := Txn{Name: "w1", Mode: "w", End: "commit", MaxTime: 120, Deadline: pick(r, 1, 2, 3), CommitAfter: "w0",
+		Ops: []Op{{K: "update", S: 0, Key: k(1), Val: "w1.0"}}}
+	h := Txn{Name: "w2", Mode: "w", End: "commit", MaxTime: 20, CommitAfter: "w0",
+		Ops: []Op{{K: "update", S: 0, Key: k(2), Val: "w2.0"}}}
+	if r.IntN(2) == 0 {
+		a.Ops = append(a.Ops, Op{K: "get", S: 0, Key: k(3)})
+	}
+	c.Phases = append(c.Phases, Phase{Kind: "group", Txns: []Txn{x, a, h}})
+	c.FaultPhase = 2
+	c.Faults = append(c.Faults, sim.FaultSpec{Task: "w2", Op: 8 + r.IntN(40), Kind: "stall", Arg: int64(pick(r, 8000, 45000))})
+	follow := Txn{Name: "follow", Mode: "w", End: "commit", MaxTime: 60, Ops: []Op{{K: "update", S: 0, Key: k(1), Val: "follow.0"}, {K: "update", S: 0, Key: k(2), Val: "follow.1"}}}
 	c.Phases = append(c.Phases, Phase{Kind: "group", Txns: []Txn{follow}})
 	c.Phases = append(c.Phases, Phase{Kind: "observe", Label: "final"})
 	return c
@@ -204,7 +230,7 @@ func nontrivialC15(c *Case, res *Result) string {
 func init() {
 	cc := &caseCheck{id: "C15", gen: genC15, oracle: oracleC15, nontrivial: nontrivialC15, perUnit: func(string) int { return 15 }}
 	Register(cc.def("exploration",
-		"2-4 concurrent writers over 4-8 overlapping keys of 1-2 stores, even/odd writers touching the keys in opposite orders, maxTime in {2,5,20,120} s, a third with a caller deadline of 1..300 s, in half of the runs one writer is stalled by the simulator for 1.5 s..10 min at a PRNG-chosen call of its commit (a lock holder that hangs); simulated clock. Oracle: for every non-stalled transaction Commit returns within min(deadline, maxTime) + max(5 s, 25%); the scheduler's step cap is never hit (no livelock); afterwards a follow-up transaction on the same keys commits within 30 simulated seconds. distinct_nontrivial = distinct context-switch sequences",
+		"2-4 concurrent writers over 4-8 overlapping keys of 1-2 stores, even/odd writers touching the keys in opposite orders, maxTime in {2,5,20,120} s, a third with a caller deadline of 1..300 s, a quarter of the runs use a directed shape (a writer that retries after a version conflict, finds the node lock held by a stalled holder and gives up at a caller deadline far below its maxTime); in half of the other runs one writer is stalled by the simulator for 1.5 s..10 min at a PRNG-chosen call of its commit (a lock holder that hangs); simulated clock. Oracle: for every non-stalled transaction Commit returns within min(deadline, maxTime) + max(5 s, 25%); the scheduler's step cap is never hit (no livelock); afterwards a follow-up transaction on the same keys commits within 30 simulated seconds. distinct_nontrivial = distinct context-switch sequences",
 		func(tier string) int {
 			if tier == "thorough" {
 				return 1600
